@@ -1126,7 +1126,7 @@ Lemma typed_decl_sim s d s' : parse_typed_decl B s = Ok d s' -> serrs s' = [] ->
   abs s' = abs s /\ fns s' = fns s /\ sused s' = [] /\ snd d <> None.
 Proof.
   unfold parse_typed_decl. intros H Q U.
-  destruct (p_type B (adv (adv (snd (passert T_IDENT s))))) as [t s2| |] eqn:P; try discriminate H.
+  destruct (p_type B (adv (snd (passert T_COLON (adv (snd (passert T_IDENT s))))))) as [t s2| |] eqn:P; try discriminate H.
   destruct (p_type_full B _ _ _ P) as (A & F & U2); [norm; exact U|].
   destruct t; apply Ok_inj in H as [E1 E2]; subst; [|norm; discriminate Q].
   norm. repeat split; auto. discriminate.
